@@ -203,6 +203,18 @@ func (c *gctx) expr(depth int, consuming bool) *Expr {
 			if consuming && !c.cfg.NullableLoops {
 				continue
 			}
+			if c.cfg.NullableLoops && c.chance(1, 5) {
+				// a repetition directly over something that matches without consuming
+				k := Star
+				if c.chance(1, 3) {
+					k = Plus
+				}
+				body := &Expr{Kind: Lit, Text: ""}
+				if c.cfg.Lookahead && c.chance(1, 3) {
+					body = &Expr{Kind: And, Subs: []*Expr{c.terminal()}}
+				}
+				return &Expr{Kind: k, Subs: []*Expr{body}}
+			}
 			return &Expr{Kind: Star, Subs: []*Expr{c.expr(depth-1, !c.cfg.NullableLoops)}}
 		case 6:
 			return &Expr{Kind: Plus, Subs: []*Expr{c.expr(depth-1, !c.cfg.NullableLoops)}}
@@ -240,14 +252,36 @@ func (c *gctx) expr(depth int, consuming bool) *Expr {
 			c.labels = append(c.labels, lab)
 			guarded := c.expr(depth-1, false)
 			c.labels = saved
-			c.inRecov = true
-			rec := c.expr(min(depth-1, 1), false)
-			c.inRecov = false
+			if c.chance(1, 3) {
+				// the classic recovery pattern: a list whose items may each throw
+				item := &Expr{Kind: Choice, Subs: []*Expr{c.terminal(), {Kind: Throw, Name: lab}}}
+				if c.cfg.States && c.chance(1, 2) {
+					item = &Expr{Kind: Seq, Subs: []*Expr{{Kind: State}, item}}
+				}
+				guarded = &Expr{Kind: Seq, Subs: []*Expr{{Kind: Star, Subs: []*Expr{{Kind: Seq, Subs: []*Expr{item, c.terminal()}}}}, guarded}}
+			}
+			recovery := func() *Expr {
+				c.inRecov = true
+				rec := c.expr(min(depth-1, 1), false)
+				c.inRecov = false
+				if c.chance(1, 3) {
+					// a recovery expression that itself installs a handler (for a label
+					// nobody throws: it must not disturb the handlers in force)
+					rec = &Expr{Kind: Recover, Subs: []*Expr{rec, c.terminal()}, Labels: []string{"E9"}}
+				}
+				return rec
+			}
+			rec := recovery()
 			labs := []string{lab}
 			if c.chance(1, 4) {
 				labs = append(labs, "E3")
 			}
-			return &Expr{Kind: Recover, Subs: []*Expr{guarded, rec}, Labels: labs}
+			e := &Expr{Kind: Recover, Subs: []*Expr{guarded, rec}, Labels: labs}
+			// several handlers for the same label, innermost first
+			for c.chance(1, 3) {
+				e = &Expr{Kind: Recover, Subs: []*Expr{e, recovery()}, Labels: []string{lab}}
+			}
+			return e
 		case 13:
 			if !c.cfg.Throws || c.inRecov || consuming {
 				continue
@@ -296,7 +330,7 @@ func (c *gctx) stateProbe(depth int, consuming bool) *Expr {
 		}
 		return &Expr{Kind: Seq, Subs: []*Expr{e, pred()}}
 	}
-	switch c.r.Intn(6) {
+	switch c.r.Intn(8) {
 	case 0, 1: // choice of several probes, then an observing alternative
 		n := 2 + c.r.Intn(3)
 		e := &Expr{Kind: Choice}
@@ -319,6 +353,17 @@ func (c *gctx) stateProbe(depth int, consuming bool) *Expr {
 			body.Subs[0] = &Expr{Kind: Any}
 		}
 		return &Expr{Kind: Seq, Subs: []*Expr{{Kind: Star, Subs: []*Expr{body}}, observer(c.terminal())}}
+	case 5: // an inner lookahead that matches and changes state, observed while still inside an outer lookahead
+		inner := &Expr{Kind: And, Subs: []*Expr{{Kind: Seq, Subs: []*Expr{{Kind: State}, c.terminal()}}}}
+		if inner.Subs[0].Subs[1].Kind == Lit {
+			inner.Subs[0].Subs[1] = &Expr{Kind: Lit, Text: ""}
+		}
+		k := And
+		if c.chance(1, 2) {
+			k = Not
+		}
+		outer := &Expr{Kind: k, Subs: []*Expr{{Kind: Seq, Subs: []*Expr{inner, pred(), {Kind: State}, pred()}}}}
+		return &Expr{Kind: Seq, Subs: []*Expr{outer, observer(c.terminal())}}
 	default: // sequence failing after a state change, inside an alternative
 		return &Expr{Kind: Choice, Subs: []*Expr{{Kind: Seq, Subs: []*Expr{c.terminal(), {Kind: State}, c.terminal(), pred()}}, observer(c.terminal())}}
 	}
